@@ -613,7 +613,7 @@ pub fn groups(prop: &str, tier: &str) -> Vec<Group> {
                     sets[1].rules[0].kind = Kind::Act(d_switch_return(2));
                     sets.push(RuleSet { lets: lets(&[("j", k2)]), rules: vec![rule(cat(var("j"), opt(var("t"))), Kind::Act(d_switch_return(0))), ret(ch('a'))] });
                 }
-                Spec { lets: lets(&[("t", ch('c'))]), sets, named: true, decl_order: vec![], family: "let_scope" }
+                Spec { lets: lets(&[("t", ch('c'))]), sets, named: true, decl_order: vec![], family: "let_scope", set_names: vec![] }
             };
             specs.push(mk(ch('a'), ch('b'), None));
             specs.push(mk(st("ab"), ch('a'), None));
